@@ -6,7 +6,7 @@ rule verdicts with the baseline of the unchanged tree.
   keep-*.patch  : behaviour-preserving edit; NO new failing instance may appear.
   repair-*.patch: repairs a finding of today's tree; `# expect: <rule>`: the baseline failure(s) of that rule must disappear and nothing new may fail.
 Also used for /verif/seeded/<id>/patch.diff (expectation from meta.json "expect_rules", may be empty = 'any new violation of the property').
-usage: selftest.py [--json out.json] [Cxx ...]   (default: every property with patches)"""
+usage: selftest.py [--json out.json] [--shard k/n] [Cxx ...]   (default: every property with patches)"""
 import glob
 import json
 import os
@@ -134,20 +134,28 @@ def collect(props):
 
 def main(argv):
     out_json = None
+    shard = None
     props = []
     i = 1
     while i < len(argv):
         if argv[i] == "--json":
             out_json = argv[i + 1]
             i += 2
+        elif argv[i] == "--shard":      # --shard k/n : run every n-th item starting at k (parallel runs, one scratch copy each)
+            shard = tuple(int(x) for x in argv[i + 1].split("/"))
+            i += 2
         else:
             props.append(argv[i])
             i += 1
     items = collect(props)
+    if shard:
+        items = items[shard[0]::shard[1]]
     if not items:
         print("no self-test patches for", props)
         return 0
     root = tempfile.mkdtemp(prefix="raftlint-selftest-", dir="/var/tmp")
+    if shard:
+        os.environ["RAFTLINT_SCRATCH_TARGET"] = root      # own cargo target dir, removed with the scratch copy
     scratch = os.path.join(root, "repo")
     evdir = os.path.join(root, "ev")
     os.makedirs(evdir)
